@@ -97,7 +97,7 @@ def check(ctx):
         r1.ok("%s %s @%s in %s" % ("reachable" if c.fn.id in reach else "unreachable", short_path(callee_name(c)), c.where(), short_path(c.fn.id)))
     r1.notes.append("unreachable from the entry points (checked only in the thorough tier's pub-API closure): " +
                     ", ".join(sorted(set(short_path(c.fn.id) for c in sites if c.fn.id not in reach))))
-    r1.require_floor(18, "filesystem-mutating call sites")
+    r1.require_floor(12, "filesystem-mutating call sites")
     rules.append(r1)
 
     r2 = Rule("C16-D2-path-provenance", "D2",
@@ -129,7 +129,7 @@ def check(ctx):
                     r4.bad(V(r4.id, c.fn.id, ident, "%s receives a path derived from the project path: %s" % (kind, render(a)), c.file, c.line))
                 else:
                     r4.ok(None)
-    r2.require_floor(16, "reachable (call site, path alternative) pairs")
+    r2.require_floor(10, "reachable (call site, path alternative) pairs")
     rules.append(r2)
     r4.samples.append("%d reachable mutating operands, none derived from GenerateConfig.project_path" % r4.discharged)
     rules.append(r4)
@@ -231,7 +231,7 @@ def check(ctx):
                          c.file, c.line))
             else:
                 r3.ok("%s: delete of read_dir entry via %s guarded by is_file ∧ is_generated_file ∧ ¬current.contains" % (short_path(f.id), short_path(c.best)))
-    r3.require_floor(16, "predicate disjuncts, literals and guarded deletion sites")
+    r3.require_floor(10, "predicate disjuncts, literals and guarded deletion sites")
     rules.append(r3)
 
     return finish(
